@@ -1,6 +1,7 @@
 import os
 import secrets
 import sys
+import tempfile
 from dataclasses import replace
 from typing import Optional
 
@@ -30,11 +31,26 @@ def _get_default_salt() -> bytes:
             salt = secrets.randbits(64).to_bytes(8, "little")
 
             os.makedirs(config_dir, exist_ok=True)
-            with open(salt_file_path, "wb") as file:
-                file.write(salt)
+            # Write the salt to a private temporary file and publish it atomically without overwriting, so that a
+            # crash or a concurrent first use can neither leave a partial salt file nor replace a published salt.
+            fd, temp_file_path = tempfile.mkstemp(dir=config_dir, prefix="salt.", suffix=".tmp")
+            try:
+                with os.fdopen(fd, "wb") as file:
+                    file.write(salt)
+                    file.flush()
+                    os.fsync(file.fileno())
+                try:
+                    os.link(temp_file_path, salt_file_path)
+                except FileExistsError:
+                    pass  # Another process published its salt first; that one is used.
+            finally:
+                os.unlink(temp_file_path)
 
         with open(salt_file_path, "rb") as file:
-            return file.read()
+            salt = file.read()
+        if len(salt) < 8:
+            raise ValueError("The stored salt is shorter than 8 bytes.")
+        return salt
     except Exception as e:
         print(
             "Error: could not create or retrieve the default salt value!\n"
